@@ -163,6 +163,20 @@ CHECKS = {
         "bounds": {"quick": "token depth 4 (3 for prebuilt formats)", "thorough": "token depth 5 (4 prebuilt); all byte strings of length <= 3"},
         "assumptions": [],
     },
+    "C12": {
+        "bin": "c12",
+        "quick": cfgs(["rdxfmt"]),
+        "thorough": cfgs(["rdxfmt", "fmt", "cmprdxfmt"]),
+        "rule": "every string of <= L tokens over the per-format alphabet {+,-,0,1,max digit,point,exponent char in both cases,prefix and suffix letters "
+                "in both cases,nan,NaN,inf,Inf,infinity,n,i,comma} x every catalogued format without separator flags (STANDARD, each of the 18 syntax "
+                "flags alone, full power set of the 7 digit/notation flags, sign cluster, special cluster, leading-zero x prefix cluster, case-sensitivity "
+                "cluster with prefix x / suffix h in radix 10 and 16, radices 2/3/8/16/36; thorough adds the prebuilt formats without separators) x "
+                "complete parsers of f64, f32, u8, i32, i64, u128; reference grammar R-gram interpreted from an independent descriptor decides accept / "
+                "reject / special; accepted floats must be the correctly rounded value of the digits (exact arithmetic), integers exact or overflow; "
+                "non-trivial = strings the reference grammar derives; inputs where the documentation is silent or contradicts itself are counted, not judged",
+        "bounds": {"quick": "token depth 5", "thorough": "token depth 6; plus prebuilt formats"},
+        "assumptions": COMMON_ASSUME + ["R-gram follows the flag one-liners in format_flags.rs and the NumberFormatBuilder getter docs; Unspecified cases: lone sign or empty string without required digits, `1.e3` under no_exponent_without_fraction, `0x` without digits, single digit before a base suffix, prefix x leading-zero flags"],
+    },
 }
 
 # properties not claimed (reason). Kept current by hand.
